@@ -21,6 +21,9 @@ func (vc *VC) execCall(x *ssa.Call, st *State) {
 		recv := vc.val(c.Value)
 		key := "(" + typeName(c.Value.Type()) + ")." + c.Method.Name()
 		fc := vc.prog.contracts.Funcs[key]
+		if o := vc.prog.contracts.Funcs[key+"@"+vc.fn.RelString(vc.fn.Pkg.Pkg)]; o != nil {
+			fc = o
+		}
 		vc.oblige("safe", "nil@invoke."+c.Method.Name(), []string{"C03"}, not(eq(recv.S, "0")), nil)
 		all := append([]Val{recv}, args...)
 		vc.regs[x] = vc.applyContract(x, key, fc, nil, all, nil, c.Signature(), st)
@@ -50,6 +53,9 @@ func (vc *VC) callStatic(x *ssa.Call, callee *ssa.Function, args, binds []Val, s
 	}
 	key := vc.prog.funcKey(callee)
 	fc := vc.prog.contracts.Funcs[key]
+	if o := vc.prog.contracts.Funcs[key+"@"+vc.fn.RelString(vc.fn.Pkg.Pkg)]; o != nil {
+		fc = o
+	}
 	if callee.Name() == "ssa:deferstack" {
 		vc.regs[x] = Val{K: KOpaque, T: x.Type(), S: "0"}
 		return
@@ -148,6 +154,11 @@ func (vc *VC) applyContract(x *ssa.Call, key string, fc *FuncContract, callee *s
 	}
 	// 1. preconditions
 	if fc != nil {
+		if u := fc.Opts["uses"]; u != "" {
+			for _, ln := range strings.Split(u, ",") {
+				vc.assume(vc.lemmaFact(strings.TrimSpace(ln), st))
+			}
+		}
 		env := vc.calleeEnv(fc, callee, args, binds, nil, sig)
 		for i, c := range fc.Requires {
 			name := c.Label
@@ -208,6 +219,7 @@ func (vc *VC) applyContract(x *ssa.Call, key string, fc *FuncContract, callee *s
 			idxSort = "Int"
 		}
 		foot, whole := vc.calleeFootprint(fc, c, "a!", envPre, pre, callee)
+		vc.callFrameCheck(site, c, foot, whole, idxSort)
 		if whole {
 			continue
 		}
@@ -770,3 +782,70 @@ func (vc *VC) loadGlobal(name string, t types.Type, g *ssa.Global, st *State) Va
 	return v
 }
 
+
+// callFrameCheck: what a callee may modify (of pre-existing memory) must lie
+// within the caller's own modifies clause.
+func (vc *VC) callFrameCheck(site, comp, calleeFoot string, calleeWhole bool, idxSort string) {
+	if vc.fc == nil || vc.fc.Modifies == nil {
+		return
+	}
+	if !calleeWhole && calleeFoot == "false" {
+		return
+	}
+	callerFoot, callerWhole := vc.footprint(comp, "a!")
+	if callerWhole {
+		return
+	}
+	cf := calleeFoot
+	if calleeWhole {
+		cf = "true"
+	}
+	var goal string
+	if idxSort == "Addr" {
+		goal = fmt.Sprintf("(forall ((a! Addr)) (=> (and (< (rootOf a!) |alloc@0|) %s) %s))", cf, callerFoot)
+	} else {
+		goal = fmt.Sprintf("(forall ((a! Int)) (=> %s %s))", cf, callerFoot)
+	}
+	vc.oblige1("frame", "call@"+site+"."+strings.Trim(strings.TrimPrefix(strings.TrimPrefix(comp, "|H:"), "|E:"), "|"), []string{"C14"}, goal, nil)
+}
+
+// lemmaFact renders a (separately proved) lemma as a closed formula over the
+// heap of the given state.
+func (vc *VC) lemmaFact(name string, st *State) string {
+	var lm *Lemma
+	for _, x := range vc.prog.contracts.Lemmas {
+		if x.Name == name {
+			lm = x
+		}
+	}
+	if lm == nil {
+		panic(unsupported("unknown lemma %s", name))
+	}
+	var pkg *types.Package
+	for _, p := range vc.prog.allPkgs {
+		if p.Path() == lm.Pkg {
+			pkg = p
+		}
+	}
+	env := &Env{vc: vc, names: map[string]envEntry{}, pkg: pkg}
+	var binders, hyp []string
+	for _, p := range lm.Params {
+		t := vc.prog.resolveType(p.Type, pkg)
+		nm := "|u:" + lm.Name + ":" + p.Name + "|"
+		v := Val{K: kindOf(t), T: t, S: nm}
+		binders = append(binders, "("+nm+" "+sortOfType(t)+")")
+		if g := vc.typeAssume(v, st.alloc); g != "true" {
+			hyp = append(hyp, g)
+		}
+		env.names[p.Name] = envEntry{val: &v}
+	}
+	for _, c := range lm.Requires {
+		hyp = append(hyp, vc.evalBool(c.E, env, st, st))
+	}
+	var goals []string
+	for _, c := range lm.Ensures {
+		goals = append(goals, vc.evalBool(c.E, env, st, st))
+	}
+	vc.usedExt["lemma "+name+" (proved separately as lemma:"+name+")"] = true
+	return fmt.Sprintf("(forall (%s) (=> %s %s))", strings.Join(binders, " "), and(hyp...), and(goals...))
+}
